@@ -72,7 +72,7 @@ claim("C02",
 
 
 claim("C12",
-      "The placement rules are written in Schema.tla from the documentation; TLC classifies every schema in the bound and shows that every behaviour of the version machine ends in a rule-conforming schema. The harness feeds each schema as the stdin schema in effect (accepted iff valid, refused without output otherwise, irrelevant when overridden), runs every ZervModel behaviour as producer | consumer (parse-back identical, byte-identical re-emission, piped rendering = direct rendering = the rendering predicted by ZervModel ; Render), and records hostile-text / custom-JSON objects and certainly malformed documents for Trace_Pipe.",
+      "The placement rules are written in Schema.tla from the documentation; TLC classifies every schema in the bound and shows that every behaviour of the version machine ends in a rule-conforming schema. The harness feeds each schema as the stdin schema in effect (accepted iff valid, refused without output otherwise, irrelevant when overridden), runs every ZervModel behaviour (VCS overrides, index operations, custom precedence orders incl. the empty one) as producer | consumer (parse-back identical, byte-identical re-emission, piped rendering = direct rendering = the rendering predicted by ZervModel ; Render), and records hostile-text / custom-JSON objects and certainly malformed documents for Trace_Pipe.",
       "Exhaustive over schemas with <= 3 (quick) / 4 (thorough) components over a 12-symbol alphabet, and over the MC_Zerv argument spaces; random hostile objects beyond. RON syntax itself is opaque.",
       GEN, "DESIGN.md 5/C12")
 claim("C01",
@@ -82,25 +82,25 @@ claim("C01",
 
 
 claim("C15",
-      "Template.tla states the context equations (semver / pep440 = the renderings of Render.tla, *_obj parts recompose, docker form, scalar variables) and the function contracts (sanitize = the Sanitizer contract per preset and per subset of custom parameters, prefix, prefix_if, shape contracts for hash / hash_int, format_timestamp = Calendar.tla for a strftime subset). TLC checks the contracts' consistency and emits expected results for every value in the bound, replayed through `--output-template`; contexts of random objects and random function calls with hostile values, recorded under non-UTC time zones, are judged by Trace_Template.",
+      "Template.tla states the context equations (semver / pep440 = the renderings of Render.tla, *_obj parts recompose, docker form, scalar variables) and the function contracts (sanitize = the Sanitizer contract per preset and per subset of custom parameters, prefix, prefix_if, shape contracts for hash / hash_int, format_timestamp = chrono's strftime directives on the UTC civil fields of Calendar.tla: numeric fields with padding modifiers, names, 12-hour clock, %U %W and the ISO week date, composites, zone directives). TLC checks the contracts' consistency and emits expected results for every value in the bound, replayed through `--output-template`; contexts of random objects and random function calls with hostile values, recorded under non-UTC time zones, are judged by Trace_Template.",
       "Exhaustive over values <= 4 (5) symbols x 14 determined calls; random beyond. Tera itself is not modelled.",
       GEN, "DESIGN.md 5/C15")
 
 
 claim("C13",
-      "Cli.tla defines the outcome protocol of a zerv process (Ok | CleanError; panic, signal, result on failure, silent failure, diagnostics on stdout, -v changing stdout are bad) and the fault / value / stdin classes. MC_Cli walks the K git calls of a run (K measured on the current build for 8 scenario/command pairs) injecting one or two faults of 15 modes at every position, and enumerates every (sub-command, option from the current clap definitions, value class, stdin class, -v) combination; each is executed by the real debug-build binary (behind a git shim for the plans) and, with random multi-option vectors and special situations, judged by Trace_Cli.",
+      "Cli.tla defines the outcome protocol of a zerv process (Ok | CleanError; panic, signal, result on failure, silent failure, diagnostics on stdout, -v changing stdout are bad) and the fault / value / stdin classes. MC_Cli walks the K git calls of a run (K measured on the current build for 8 scenario/command pairs) injecting one or two faults of 15 modes at every position, and enumerates every (sub-command, option from the current clap definitions, value class, stdin class, -v) combination; each is executed by the real debug-build binary (behind a git shim for the plans) and, with random multi-option vectors and special situations (unusual repository states, healthy repositories whose refs and file names are long and not ASCII, a 300-commit history, with and without -v / RUST_LOG), judged by Trace_Cli. Beyond the property: Input.tla, the machine that decides which input a run reads (--source x stdin x working directory x -C), model-checked and replayed run by run (deviations are reported as X:input-selection, not as violations).",
       "Fault plans exhaustive for single faults (thorough: pairs, sampled); argument classes pairwise-exhaustive over (option, value class) x stdin class; random beyond. The binary is the harness-profile build of /repo/src/main.rs (debug assertions on).",
       "TLA+ outcome protocol + TLC-enumerated fault plans / argument classes executed on the real binary; every run validated by TLC", "DESIGN.md 5/C13")
 
 
 claim("C14",
-      "Trace_Env keeps a memo per input: the first run fixes the answer, every later run of the same input under another TZ / locale / working directory / set of unrelated variables / process must reproduce it, and runs that carry a calendar instant must start with the UTC date given by Calendar.tla (so the first observation cannot itself be wrong). ~300 inputs (CalVer presets, ts() components and format_timestamp templates within +-14 h of day / month / year boundaries, branch hashes, non-ASCII names, stdin RON, render / check, six git repositories with absolute and relative -C - ahead of the tag, exactly at it, with several equal-precedence tag spellings on one commit, with a commit made at the Unix epoch) are run with the real binary under the environment matrix.",
+      "Trace_Env keeps a memo per input: the first run fixes the answer, every later run of the same input under another TZ / locale / working directory / set of unrelated variables / process must reproduce it, and runs that carry a calendar instant must start with the UTC date given by Calendar.tla (so the first observation cannot itself be wrong). ~300 inputs (CalVer presets, ts() components and format_timestamp templates within +-14 h of day / month / year boundaries, branch hashes, non-ASCII names, stdin RON, render / check, git repositories with absolute and relative -C - ahead of the tag, exactly at it, with several equal-precedence tag spellings on one commit, with a commit made at the Unix epoch, with the tag 130 commits behind HEAD; the third run of every input has debug logging on and nothing else changed) are run with the real binary under the environment matrix.",
       "~300 inputs x 8 (quick) / 60 (thorough) environments. Numbers within 10 minutes of the wall clock are masked except for clean-at-tag repositories. Only C / C.UTF-8 / POSIX locales exist on the image.",
       "TLA+ memo specification; recorded process runs under an environment matrix validated by TLC", "DESIGN.md 5/C14")
 
 
 claim("C18",
-      "PyApi.tla states _extend_args as a machine and the keyword -> option rule from the CLI contract; TLC checks the table invariant (every keyword of the four functions, read from the current Python signatures, maps to an option that the sub-command of the current build accepts with the right arity, read from the clap definitions) and generates every call with one or two keywords in each value class together with its expected argv. The Python harness runs the real module: captured argv = expected argv; unpatched against the built binary the return value equals the stripped stdout of the equivalent command line and failing commands raise; stdin is combined with every source.",
+      "PyApi.tla states _extend_args as a machine and the keyword -> option rule from the CLI contract; TLC checks the table invariant (every keyword of the four functions, read from the current Python signatures, maps to an option that the sub-command of the current build accepts with the right arity, read from the clap definitions) and generates every call with one or two keywords in each value class together with its expected argv. The Python harness runs the real module: captured argv = expected argv; unpatched against the built binary the return value equals the stripped stdout of the equivalent command line and failing commands raise; stdin is combined with every source; identical calls repeated in one process while the repository changes or the template prints the wall clock must each give the answer of the command line run at that moment.",
       "Finite: 41 + 27 + 2 + 4 keywords x 7 value classes (None, False, True, 0, valid, empty string, hostile text) (quick), all keyword pairs (thorough).",
       GEN, "DESIGN.md 5/C18")
 
